@@ -9,6 +9,7 @@ mod c08;
 mod c10;
 mod c11;
 mod c12;
+mod c13;
 mod c15;
 mod c16;
 mod exec;
@@ -76,6 +77,10 @@ fn parse_args() -> (String, Ctx) {
 fn main() {
     util::install_panic_hook();
     let (cmd, ctx) = parse_args();
+    if cmd == "c13-worker" {
+        c13::worker(&ctx);
+        return;
+    }
     if cmd == "cfg-worker" {
         let r = c16::worker(&ctx);
         println!("{}", serde_json::to_string(&r).unwrap());
@@ -94,6 +99,7 @@ fn main() {
         "C10" => c10::run(&ctx),
         "C11" => c11::run(&ctx),
         "C12" => c12::run(&ctx),
+        "C13" => c13::run(&ctx),
         "C15" => c15::run(&ctx),
         "C16" => c16::run(&ctx),
         _ => usage(),
